@@ -30,6 +30,8 @@ type vsCase struct {
 	QAccts   []string  `json:"qaccts"`
 	QVars    []string  `json:"qvars"`
 	Contract string    `json:"contract"`
+	// after the last round: puts/storage writes left PENDING on the live StateDB
+	Pending *vsRound `json:"pending"`
 }
 
 type vsObs struct {
@@ -43,6 +45,7 @@ type vsObs struct {
 	Nonce     uint64 `json:"nonce"`
 	Value     string `json:"value"`
 	Err       string `json:"err"`
+	Phase     string `json:"phase"` // "" committed; "buffered" = pending puts before Update; "updated" = after Update, before Commit; "committed" = after that Commit
 }
 
 func hexs(b []byte) string { return fmt.Sprintf("%x", b) }
@@ -187,6 +190,92 @@ func TestVerifStateDBProofs(t *testing.T) {
 					}
 				}
 			}
+		}
+		if c.Pending != nil {
+			last := len(c.Rounds) - 1
+			vsPut := func() {
+				for name, nonce := range c.Pending.Accounts {
+					st := &types.State{Nonce: nonce, Balance: new(big.Int).SetUint64(nonce * 1000).Bytes()}
+					sdb.PutState(types.ToAccountID([]byte(name)), st)
+				}
+				if len(c.Pending.Vars) > 0 {
+					cs, err := OpenContractStateAccount([]byte(c.Contract), sdb)
+					if err != nil {
+						t.Fatal(err)
+					}
+					for k, v := range c.Pending.Vars {
+						if v == "" {
+							cs.DeleteData([]byte(k))
+						} else {
+							cs.SetData([]byte(k), []byte(v))
+						}
+					}
+					StageContractState(cs, sdb)
+				}
+			}
+			query := func(phase string) {
+				cur := append([]byte{}, sdb.GetRoot()...)
+				for _, comp := range []bool{false, true} {
+					for _, useRoot := range []bool{false, true} {
+						var rootArg []byte
+						if useRoot {
+							rootArg = cur
+						}
+						for _, name := range c.QAccts {
+							id := types.ToAccountID([]byte(name))
+							o := vsObs{Kind: "account", Name: name, Round: last, UseRoot: useRoot, Comp: comp, Phase: phase}
+							p, err := sdb.GetAccountAndProof(id[:], rootArg, comp)
+							if err != nil {
+								o.Err = err.Error()
+							} else {
+								o.Inclusion = p.Inclusion
+								var val []byte
+								if p.Inclusion {
+									o.Nonce = p.State.GetNonce()
+									val = getHashBytes(p.State)
+								}
+								o.Verified = vsVerify(cur, p.Inclusion, comp, id[:], val, p.ProofKey, p.ProofVal, p.Bitmap, p.AuditPath, int(p.Height))
+							}
+							obs = append(obs, o)
+						}
+					}
+					// variables against the contract's current storage root (state buffer first: after Update
+					// this is the root of the updated, not yet committed storage trie)
+					cid := types.ToAccountID([]byte(c.Contract))
+					if cst, err := sdb.GetAccountState(cid); err == nil && cst != nil {
+						sroot := append([]byte{}, common.Compactz(cst.GetStorageRoot())...)
+						if len(sroot) != 0 {
+							for _, vn := range c.QVars {
+								key := types.GetHashID([]byte(vn))
+								o := vsObs{Kind: "var", Name: vn, Round: last, UseRoot: true, Comp: comp, Phase: phase}
+								p, err := sdb.GetVarAndProof(key[:], sroot, comp)
+								if err != nil {
+									o.Err = err.Error()
+								} else {
+									o.Inclusion = p.Inclusion
+									var val []byte
+									if p.Inclusion {
+										o.Value = string(p.Value)
+										val = common.Hasher(p.Value)
+									}
+									o.Verified = vsVerify(sroot, p.Inclusion, comp, key[:], val, p.ProofKey, p.ProofVal, p.Bitmap, p.AuditPath, int(p.Height))
+								}
+								obs = append(obs, o)
+							}
+						}
+					}
+				}
+			}
+			vsPut()
+			query("buffered")
+			if err := sdb.Update(); err != nil {
+				t.Fatal(err)
+			}
+			query("updated")
+			if err := sdb.Commit(); err != nil {
+				t.Fatal(err)
+			}
+			query("committed")
 		}
 		b, _ := json.Marshal(obs)
 		w.Write(b)
